@@ -1,40 +1,50 @@
 ---------------------------- MODULE MC_Admission ----------------------------
 EXTENDS Admission
 
-W(name, pub, cons, fork, full, env) ==
-  [name |-> name, public |-> pub, consensus |-> cons, fork |-> fork, full |-> full, env |-> env]
+W(name, pub, cons, fork, full, depth, fams) ==
+  [name |-> name, public |-> pub, consensus |-> cons, fork |-> fork, lowmin |-> FALSE, full |-> full, depth |-> depth, fams |-> fams]
 
 SysFull  == SysOps \cup {"v1createName", "nosuchop"}
 NameFull == NameOps \cup {"v1stake"}
 EntFull  == EntOps \ {"changeCluster"}
+FamAll   == {"env", "gov", "pk", "amt"}
+FamGov   == {"gov", "pk", "amt"}
+
+\* a public DPoS chain on which a majority staker has voted the staking minimum down to 1 aer ("whale"),
+\* and an account staking 50 aer ("tiny"); only the two voting calls are enumerated
+LowMin(name, fork, depth) ==
+  [name |-> name, public |-> TRUE, consensus |-> "dpos", fork |-> fork, lowmin |-> TRUE,
+   full |-> {"v1voteBP", "v1voteDAO"}, depth |-> depth, fams |-> {"gov"}]
 
 \* quick tier: a public DPoS chain after the first hard fork (system + name calls and the envelope in full),
-\* a private DPoS chain (enterprise calls in full), a private raft chain (changeCluster in full)
-WQuick == { W("pub2",  TRUE,  "dpos", 2, SysFull \cup NameFull, TRUE),
-            W("priv3", FALSE, "dpos", 3, EntFull, FALSE),
-            W("raft3", FALSE, "raft", 3, {"changeCluster"}, FALSE) }
+\* a private DPoS chain (enterprise calls in full), a private raft chain (changeCluster in full), the low-minimum chain
+WQuick == { W("pub2",  TRUE,  "dpos", 2, SysFull \cup NameFull, 2, FamAll),
+            W("priv3", FALSE, "dpos", 3, EntFull, 2, FamGov),
+            W("raft3", FALSE, "raft", 3, {"changeCluster"}, 2, FamGov),
+            LowMin("low2", 2, 2) }
 
-\* thorough tier: every fork version of the public chain, private chains with everything in full
-WBig == { W("pub0",  TRUE,  "dpos", 0, SysFull \cup NameFull, TRUE),
-          W("pub2",  TRUE,  "dpos", 2, SysFull \cup NameFull, TRUE),
-          W("pub3",  TRUE,  "dpos", 3, SysFull, FALSE),
-          W("pub5",  TRUE,  "dpos", 5, SysFull \cup NameFull, TRUE),
-          W("priv3", FALSE, "dpos", 3, EntFull \cup SysFull, TRUE),
-          W("raft3", FALSE, "raft", 3, EntOps \cup NameFull, TRUE) }
+\* thorough tier: argument lists up to 3 where the calls live, every fork version of the public chain with lists up to 2
+WBig == { W("pub2",  TRUE,  "dpos", 2, SysFull \cup NameFull, 3, FamAll),
+          W("priv3", FALSE, "dpos", 3, EntFull, 3, FamAll),
+          W("raft3", FALSE, "raft", 3, {"changeCluster", "appendAdmin"}, 3, FamAll),
+          W("pub0",  TRUE,  "dpos", 0, SysFull \cup NameFull, 2, FamAll),
+          W("pub3",  TRUE,  "dpos", 3, SysFull \cup NameFull, 2, FamAll),
+          W("pub4",  TRUE,  "dpos", 4, SysFull \cup NameFull, 2, FamAll),
+          W("pub5",  TRUE,  "dpos", 5, SysFull \cup NameFull, 2, FamAll),
+          W("priv5", FALSE, "dpos", 5, EntFull \cup SysFull, 2, FamAll),
+          LowMin("low2", 2, 2), LowMin("low5", 5, 2) }
 
 \* design check with a second (probe) transaction after every executed one: one world of each kind, short lists
-WTiny == { W("pub2",  TRUE,  "dpos", 2, SysFull \cup NameFull, FALSE),
-           W("raft3", FALSE, "raft", 3, EntOps, FALSE) }
-
-FamAll == {"env", "gov", "pk", "amt"}
-FamGov == {"gov", "amt"}
+WTiny == { W("pub2",  TRUE,  "dpos", 2, SysFull \cup NameFull, 1, FamGov),
+           W("raft3", FALSE, "raft", 3, EntOps, 1, FamGov),
+           LowMin("low2", 2, 2) }
 
 \* generation (ACTION_CONSTRAINT): one line per finished first transaction: context, shape, outcome of the three layers
-GenLog == (lastAct'.name = "Finish" /\ lastAct'.step = 0) =>
+GenLog == (phase = "done" /\ lastAct'.name = "Finish" /\ lastAct'.step = 0) =>
             PrintT("CS|" \o ToString(<<world.name, sender, tx.ty, tx.rc, tx.ac, tx.am, tx.pr, tx.gl, tx.no, tx.ci, tx.hs, tx.sg,
                                        tx.pk, tx.op, tx.ar, out.types, out.pool, out.exec>>))
 
 \* the probe transactions and the worlds, printed once
 ASSUME PrintT("PB|" \o ToString(Probes))
-ASSUME PrintT("WD|" \o ToString({[name |-> w.name, public |-> w.public, consensus |-> w.consensus, fork |-> w.fork] : w \in Worlds}))
+ASSUME PrintT("WD|" \o ToString({[name |-> w.name, public |-> w.public, consensus |-> w.consensus, fork |-> w.fork, lowmin |-> w.lowmin] : w \in Worlds}))
 =============================================================================
